@@ -1490,11 +1490,15 @@ def guard_class(ty):
     if g:
         args = [a for a in ty.get('a', []) if not a.startswith("'")]
         prot = args[0] if args else '()'
+        if g[0] == 'tokio_sem':
+            return (g[0], g[1], 'Semaphore')     # a permit names no protected type: same class as the acquire it came from
         return (g[0], g[1], norm_ty(prot))
     if h in GUARD_CONTAINERS:
         for (name, args) in generic_apps(ty.get('s', '')):
             g = GUARD_TYPES.get(name)
             if g:
+                if g[0] == 'tokio_sem':
+                    return (g[0], g[1], 'Semaphore')
                 return (g[0], g[1], norm_ty(args[0]) if args else '()')
     return None
 
